@@ -72,7 +72,7 @@ const (
 
 var dataIDs = []uint64{0, 1, 2, 6, 7, 11, 12, 13, 14, 18, 1, 18}
 var attIDs = []uint64{3, 4, 9}
-var wrapIDs = []uint64{5, 10, 16, 17}
+var wrapIDs = []uint64{5, 10, 16, 17, 20}
 var ticketCavIDs = []uint64{8, 15, 19}
 
 func (b *builder) randData(n int) []sym.ACav {
@@ -121,6 +121,7 @@ type famOpts struct {
 	proofRoot bool
 	v0        bool
 	disCavs   bool
+	ownLoc    bool // the first third-party caveat names the token\'s own location
 }
 
 func (b *builder) family(o famOpts) family {
@@ -138,6 +139,9 @@ func (b *builder) family(o famOpts) family {
 		adds := b.randData(b.r.Intn(3))
 		if placed < o.n3p && (b.r.Bool() || step == o.steps) {
 			loc, key := uint64(1+placed), uint64(keyTP1+placed)
+			if o.ownLoc && placed == 0 {
+				loc = 0 // a third party that lives at the token's own location: its discharge is a discharge all the same
+			}
 			c3 := sym.ACav{Is3P: true, EncKey: key, Loc: loc, TCavs: b.tcavs()}
 			pos := b.r.Intn(len(adds) + 1)
 			adds = append(adds[:pos], append([]sym.ACav{c3}, adds[pos:]...)...)
@@ -227,7 +231,7 @@ func genC05(c *ctx) {
 	}
 	for i := 0; i < n; i++ {
 		b := newBuilder(c.r.Fork())
-		o := famOpts{n3p: b.r.Intn(3), steps: b.r.Intn(4), proofDis: b.r.Intn(3), attest: b.r.P(1, 3), bind: b.r.P(1, 2), proofRoot: b.r.P(1, 8), v0: b.r.P(1, 4), disCavs: true}
+		o := famOpts{n3p: b.r.Intn(3), steps: b.r.Intn(4), proofDis: b.r.Intn(3), attest: b.r.P(1, 3), bind: b.r.P(1, 2), proofRoot: b.r.P(1, 8), v0: b.r.P(1, 4), disCavs: true, ownLoc: b.r.P(1, 5)}
 		f := b.family(o)
 		last := f.chain[len(f.chain)-1]
 		oracle := ""
@@ -510,6 +514,33 @@ func genC01(c *ctx) {
 		}
 	}
 	c.set.Notes["byte_mutations"] = map[string]any{"tried": muts, "accepted_and_equivalent": accepts, "violation": fail}
+	// several discharges minted for ONE ticket (the other mint path): each has its own nonce
+	{
+		b := newBuilder(c.r.Fork())
+		root := b.slot()
+		b.do(sym.Op{Kind: "OMint", S: root, K: keyRoot, Kid: []byte{'k'}, Loc: 0, V: 1})
+		b.do(sym.Op{Kind: "OAdd", S: root, Adds: []sym.ACav{{Is3P: true, EncKey: keyTP1, Loc: 1}}})
+		var ds []uint64
+		for k := 0; k < 4; k++ {
+			d := b.slot()
+			b.do(sym.Op{Kind: "ODischarge", Dst: d, Src: root, I: 0, K: keyTP1, Loc: 1, Proof: k%2 == 0, Ds: []sym.D{sym.DOf(uint64(k))}})
+			b.do(sym.Op{Kind: "OEncode", S: d})
+			ds = append(ds, d)
+		}
+		for _, d := range ds {
+			b.do(sym.Op{Kind: "OVerify", S: root, K: keyRoot, Slots: []uint64{d}})
+		}
+		b.emit(st, "several-discharges-one-ticket", true, "")
+	}
+	// forgery against a verifier that caches: a held token is verified through a VerificationCache, then same-nonce forgeries
+	// of it are presented to the same cache
+	for i := 0; i < 5; i++ {
+		if f := cacheForgeryOracle(c.r.Fork()); f != "" {
+			b := newBuilder(c.r.Fork())
+			b.emit(st, "forge/through-verification-cache", true, f)
+			break
+		}
+	}
 	// "independently minted tokens never share a nonce": over every token minted in this run
 	c.set.Notes["minted_nonces"] = map[string]any{"minted": sym.Mints, "distinct": len(sym.MintNonces), "violation": sym.DupNonce}
 	if sym.DupNonce != "" {
@@ -613,6 +644,10 @@ func genC02(c *ctx) {
 	if f := bundleAttenuateFailed(c.r.Fork()); f != "" {
 		b := newBuilder(c.r.Fork())
 		b.emit(st, "bundle-attenuate-failed-token", true, f)
+	}
+	if f := sliceReuseOracle(); f != "" {
+		b := newBuilder(c.r.Fork())
+		b.emit(st, "add-reuses-callers-slice", true, f)
 	}
 }
 
@@ -1079,29 +1114,36 @@ func genC08(c *ctx) {
 		p := b.slot()
 		b.do(sym.Op{Kind: "ODischarge", Dst: p, Src: root, I: 0, K: keyTP1, Loc: 1, Proof: true, Ds: []sym.D{sym.DOf(1)}})
 		slots := []uint64{p}
-		encoded := false
+		encoded := false           // some object has been encoded (a first wire form exists)
+		final := map[uint64]bool{} // per object: it has been encoded / cloned / decoded, i.e. it is final
 		var firstWire uint64
 		oracle := ""
 		for k := 1 + r.Intn(7); k > 0; k-- {
 			s := rng.Pick(r, slots)
-			switch r.Intn(9) {
+			switch r.Intn(10) {
+			case 9: // a by-value copy of the object (shares the tail's backing array): each copy finalises for itself, once
+				nd := b.slot()
+				b.do(sym.Op{Kind: "OCopyVal", Dst: nd, Src: s})
+				final[nd] = final[s]
+				slots = append(slots, nd)
 			case 7: // the helpers that build the caveat themselves: binding, Add3P
 				ob := b.do(sym.Op{Kind: "OBind", S: s, Src: root})
-				if encoded && len(ob) == 1 && ob[0] == 1 && oracle == "" {
+				if final[s] && len(ob) == 1 && ob[0] == 1 && oracle == "" {
 					oracle = "Bind succeeded on a proof after it was encoded"
 				}
 			case 8:
 				ob := b.do(sym.Op{Kind: "OAdd", S: s, Adds: []sym.ACav{{Is3P: true, EncKey: keyTP2, Loc: uint64(2 + r.Intn(2))}}})
-				if encoded && len(ob) == 1 && ob[0] == 1 && oracle == "" {
+				if final[s] && len(ob) == 1 && ob[0] == 1 && oracle == "" {
 					oracle = "Add3P succeeded on a proof after it was encoded"
 				}
 			case 0:
 				ob := b.do(sym.Op{Kind: "OAdd", S: s, Adds: b.randData(1)})
-				if encoded && len(ob) == 1 && ob[0] == 1 && oracle == "" {
+				if final[s] && len(ob) == 1 && ob[0] == 1 && oracle == "" {
 					oracle = "Add succeeded on a proof after it was encoded"
 				}
 			case 1:
 				b.do(sym.Op{Kind: "OEncode", S: s})
+				final[s] = true
 				if !encoded {
 					encoded = true
 					firstWire = b.slot()
@@ -1110,6 +1152,7 @@ func genC08(c *ctx) {
 			case 2:
 				nd := b.slot()
 				b.do(sym.Op{Kind: "OClone", Dst: nd, Src: s})
+				final[s], final[nd] = true, true
 				if !encoded {
 					encoded = true
 					firstWire = b.slot()
